@@ -14,6 +14,8 @@ R12.4 (error discipline) every `except` handler in the package either raises on 
       statements it protects; any other swallowing handler, or a reviewed one that now covers more statements, is a
       violation.
 R12.5 no warning / log call replaces one of the raises above.
+R12.6 (shared, = C02 R02.1/2/4/5 + C10 R10.1-3) the transport below the records: segments partition each body in order with
+      correct bracketing and padding, the output buffer and the byte writer hand on exactly those bytes.
 """
 
 from __future__ import annotations
@@ -154,6 +156,8 @@ def run(chk):
     chk.guard(r12_2_data_guards, chk)
     chk.guard(r12_3_shared, chk)
     chk.guard(r12_4_handlers, chk)
+    from ._layout import transport_integrity
+    chk.guard(transport_integrity, chk, "R12.6")
 
 
 def r12_1(chk):
